@@ -82,7 +82,7 @@ Do(i) ==
   LET e == MenuOf(kind)[i] IN
   /\ Enabled(e)
   /\ ents' = Append(ents, e) /\ path' = Append(path, i)
-  /\ rets' = Append(rets, IF ReturnsHandle(e.op) THEN LE(moff, 4) ELSE <<>>)
+  /\ rets' = Append(rets, IF ReturnsHandleE(e) THEN LE(moff, 4) ELSE <<>>)
   /\ UNCHANGED <<kind, ctor>>
   /\ IF IsAdd(e) THEN AddStep(EntryBytes(e, rets))
      ELSE IF e.op = "set_distance" THEN SlitStep(e)
